@@ -28,7 +28,17 @@ rm_demo
 # 2. patched: build, existing tests pass
 git apply "$DST/patch.diff" >>"$LOG" 2>&1 || { echo "RESULT apply-failed" | tee -a "$LOG"; exit 4; }
 go build ./... >>"$LOG" 2>&1; B=$?
-go test -vet=off -count=1 -timeout 25m $PKGS >>"$LOG" 2>&1; T=$?
+go test -vet=off -count=1 -timeout 25m $PKGS >"$LOG.tests" 2>&1; T=$?
+cat "$LOG.tests" >>"$LOG"
+if [ $T -ne 0 ]; then
+  # machine is shared and loaded: re-run only the failed top-level tests twice to separate load flakes from real failures
+  FAILED=$(grep -E '^--- FAIL: ' "$LOG.tests" | awk '{print $3}' | sort -u | paste -sd'|')
+  if [ -n "$FAILED" ]; then
+    echo "re-running failed tests (possible load flake): $FAILED" >>"$LOG"
+    go test -vet=off -count=2 -timeout 25m -run "^($FAILED)\$" $PKGS >>"$LOG" 2>&1 && { T=0; echo "existing-test failures were load flakes (pass on re-run x2)" >>"$LOG"; }
+  fi
+fi
+rm -f "$LOG.tests"
 # 3. patched + demo -> FAIL
 copy_demo >>"$LOG"
 ( eval "$DEMO_CMD" ) >>"$LOG" 2>&1; P=$?
